@@ -31,7 +31,7 @@ CHECKS["C01"] = {
         VM(1500, 20000, kinds=["vmrun"], projections=["skeleton"], oracles=["wf"]),
         {"name": "envcheck", "quick_n": 1500, "thorough_n": 20000, "oracles_only": True, "oracles": ["envcheck-wrong-result", "envcheck-result-ill-formed"]},
         {"name": "conv", "quick_n": 3000, "thorough_n": 40000, "oracles_only": True, "oracles": ["conv-wf"]},
-        {"name": "engine", "quick_n": 1500, "thorough_n": 20000, "oracles": ["api-panic", "process-crash"]},
+        {"name": "engine", "quick_n": 1500, "thorough_n": 20000, "model_is_oracle": True, "oracles": ["api-panic", "process-crash"]},
     ],
     "explanation": "Preservation is a theorem over the model: check Γ e = ok (T, e') and a conforming environment imply every value eval produces is deeply well formed (WF) with own type tyEq T, irrespective of object field order (C01.preservation, annotated_sound, check_annotated, builtin_sound for all 53 strict built-ins, host_respects, field_order, no_nil); the VM inherits it through C03. The model is tied to the code by the eval/vm streams under the type-skeleton projection, and the implementation-side oracle walks every result of all four back ends against the inferred type with types.Equals. At the boundary: whatever environment the check ACCEPTS, the value produced is well formed (envcheck stream, object-literal results through which every variable flows: envcheck-result-ill-formed), and every value the reflection layer hands over is well formed at every step of a history of conversions of one Go type (conv stream: conv-wf). The engine stream (API histories on one yae.Expr against Engine.run, with overload sets registered in both orders) compares the values produced through the public API with the model's, whose values are well typed by the theorem. Through the public API, for EVERY history of calls on a fresh engine (registrations, operator registrations, compiler switches, compilations, invocations of any earlier Callable; Model/Engine.lean): every invocation output is no-callable, an environment error with an empty event log, a value with the type inferred at compile time, or an allowed failure (ApiProps.api_sound, api_sound_early, api_sound_poly, api_sound_same_type); the one condition - with the late-binding compiler interp, no monomorphic key a call was resolved to is registered again with another type between compilation and invocation - cannot be dropped (kernel-checked witness late_binding_breaks_soundness).",
     "assumptions": ["host functions respect their registered signature (hostRespects, decidable for the harness's host zoo); type-variable names of registered signatures do not start with s/t (okVars; true of the built-in table by decide)"],
@@ -45,7 +45,7 @@ CHECKS["C02"] = {
         EVAL(4000, 60000, kinds=["run", "pipeline"], projections=["class"], model_is_oracle=True,
              oracles=["internal-fault", "compile-internal-fault", "check-internal-fault", "process-crash"]),
         VM(1500, 20000, kinds=["vmrun", "verify"], projections=["class", "verify"], oracles=["compile-internal-fault", "process-crash"]),
-        {"name": "engine", "quick_n": 1500, "thorough_n": 20000, "oracles": ["api-panic", "process-crash"]},
+        {"name": "engine", "quick_n": 1500, "thorough_n": 20000, "model_is_oracle": True, "oracles": ["api-panic", "process-crash"]},
     ],
     "explanation": "Progress is a theorem over the model: an accepted program in a conforming environment, with fuel above its depth, yields a well-typed value or one of the four documented failures (or a deliberately failing host function / an extern-table miss of the harness) — never another stuck outcome, never fuel (C02.progress, no_internal_fault); exact characterisations of each partial operation (exact_index, exact_key, exact_mod, exact_regex) and totality of get-with-default and every other strict built-in (total_get, total, fail_exact). For the VM: verified code never underflows, never meets a bad opcode or constant kind and terminates within the code size (C11.verify_sound). Tie: outcome-class projection of the eval/vm streams; the oracle classifies every Go panic of all four back ends. The engine stream plays API histories on one yae.Expr (registrations of colliding and overloaded functions in any order, four compilers, invocation of any earlier Callable) against Engine.run: an accepted call that runs another function than the one the checker resolved shows as an outcome the model does not have. Through the public API the same holds for every history of calls on a fresh engine: an invocation never ends in fuel or another stuck outcome (ApiProps.api_sound, case d: Allowed f), and every compilation yields a Callable or a reported error (api_compile_reports).",
     "assumptions": ["same as C01"],
@@ -108,7 +108,7 @@ CHECKS["C07"] = {
     "streams": [
         {"name": "envcheck", "quick_n": 3000, "thorough_n": 40000,
          "oracles": ["envcheck-accepts-mismatch", "envcheck-rejects-equal", "envcheck-evaluated-on-reject", "envcheck-panic", "envcheck-wrong-result", "process-crash"]},
-        {"name": "engine", "quick_n": 1500, "thorough_n": 20000, "oracles": ["api-panic", "process-crash"]},
+        {"name": "engine", "quick_n": 1500, "thorough_n": 20000, "model_is_oracle": True, "oracles": ["api-panic", "process-crash"]},
     ],
     "explanation": "Decision logic of the facade's environment check over the model (Conv.envCheck), proved: accepted iff every compile-time name is bound at run time to a value of an equal type (C07.accept_iff, reject_iff, reject_missing, reject_mismatch, undefined_iff); extra names never matter (extra_names_ok); the verdict, error class included, is invariant under re-ordering of both environments (order_irrelevant); only the types of the bound values matter (only_types_matter); a value whose own object type is a field permutation of the declared type passes (field_order_ok); acceptance plus well-formed values gives the premise of C01/C02 (accepted_env_ok). Tie: envcheck stream through the public API (Compile, Callable) on pairs of struct / map / raw environments and their mutations, half of them after a warm-up call on the same Callable, with a tracing host function making 'evaluates nothing' observable. The stream also compiles other expressions on the same engine between a compilation and its invocation, builds compile-time types whose components are one shared node (a DAG), and realises ONE declaration as two Go types (other field order, numeric kinds, pointers): such bindings are equal by construction and must be accepted whatever the reflection layer makes of them. At the level of the engine object (Model/Engine.lean, tied by the engine stream): a rejected invocation returns the environment error with an EMPTY event log - no host call, no print line, no debug entry - for every engine, compiler, Callable and environment (C07.reject_evaluates_nothing, missing_or_mistyped_evaluates_nothing); an accepted one is exactly the compiled tree evaluated on the run-time bindings (accept_evaluates_normally, equal_types_evaluate_normally).",
     "assumptions": [],
@@ -186,7 +186,7 @@ CHECKS["C13"] = {
         EVAL(3000, 40000, kinds=["run", "pipeline"], projections=["prints"], oracles=["address-in-text", "backend-divergence-reentrant"]),
         {"name": "valrel", "quick_n": 2000, "thorough_n": 30000, "oracles_only": True, "oracles": ["valrel-canonical"]},
         {"name": "conv", "quick_n": 2500, "thorough_n": 30000, "oracles_only": True, "oracles": ["conv-type-disagrees"], "oracle_input_regex": r"^env history"},
-        {"name": "engine", "quick_n": 3000, "thorough_n": 60000, "oracles": ["api-panic", "process-crash"]},
+        {"name": "engine", "quick_n": 3000, "thorough_n": 60000, "model_is_oracle": True, "oracles": ["api-panic", "process-crash"]},
     ],
     "explanation": "The engine object of facade.go is a state machine in the model (Model/Engine.lean: registrations, compiler choice, one-time appending of the built-ins at the first compilation, Callables that keep their compile-time environment and - for vm / closure - their function table). Proved over it: a compilation changes nothing but the one-time initialisation and an invocation changes nothing (init_idempotent, compile_state, invoke_state); in ANY history of compilations and invocations every output is the output of that call on the engine alone (history_independent, history_independent_fresh, recompiled_same); what registrations can and cannot change for Callables compiled earlier (early_binding_ignores_engine, callable_stable_under_append, with the kernel-checked witnesses registration_order_matters and late_binding_depends_on_compiler showing why the theorem is about histories without registrations); no output except through print (output_only_from_print(_dynamic), print_prints); the outcome depends on the bindings of the compile-time names only (invoke_depends_on_bound_names, extra_bindings_irrelevant). The model is a pure function of (source, environment): evaluation is determined (C06.determined), renderings and string() are invariant under any re-ordering of map entries at any depth (C13.texts_invariant, render_map_perm, stringify_map_perm, valEq_map_perm) and object rendering under field permutation (render_obj_perm); the only events are host calls and print lines. Tie: the engine stream plays random histories of API calls (RegisterFun incl. colliding keys, RegisterOperator, UseCompiler vm/closure/interp, UseBuiltIn, Compile, invocation of any Callable obtained so far) on ONE yae.Expr against Engine.run, output by output; the history stream plays random Compile/invoke sequences on ONE engine with shared environment objects (structs, *types.Env/*val.Env, maps), each invoke twice, against fresh engines with fresh copies, with stdout captured and host values deep-compared; the prints projection of the eval stream; a compiled expression re-entered from a host function while it is running (an interleaved invocation) must give the results of separate evaluations on every back end.",
     "assumptions": ["string() of an object follows declaration order by design (kernel-checked example C13.stringify_obj_declaration_order); it is a function of the environment's contents, which include the field order",
@@ -261,7 +261,7 @@ CHECKS["C19"] = {
     "streams": [
         {"name": "debug", "quick_n": 2500, "thorough_n": 30000,
          "oracles": ["debug-result-differs", "debug-record", "debug-record-shifted", "debug-column-not-at-term", "debug-render-firstline", "debug-render-missing-value", "debug-panic", "process-crash"]},
-        {"name": "engine", "quick_n": 1500, "thorough_n": 20000, "oracles": ["api-panic", "process-crash"]},
+        {"name": "engine", "quick_n": 1500, "thorough_n": 20000, "model_is_oracle": True, "oracles": ["api-panic", "process-crash"]},
     ],
     "explanation": "Debug evaluation is the reference evaluator with dbg = true. Proved: it returns the same value or failure and, apart from the debug entries, the same host calls and prints as normal evaluation, for every expression, environment and fuel (C19.same_result, same_run); an entry is recorded exactly when an identifier / call / subscript / member node completes, carrying its value and column+1, literals record nothing and untaken branches record nothing (recorded_node, record_on_success, no_record_on_failure, record_ident, *_records_nothing, if_records_only_taken); Record.Rec keeps columns distinct and places an entry at its own column when free (rec_free, rec_first_free, rec_distinct_cols), so the record equals the entries whenever their columns are distinct (recordOf_faithful_partial; the kernel-checked d27_eval / d27_record show the shift when a thunk is forced twice: finding D27); the report's first line is the source (render_firstline). Tie: debug stream (result, hook-exported entries, report text) on single-line programs with non-ASCII identifiers, multi-line values, unevaluated lazy branches, lazy host functions; oracles: same result, entries equal an independent instrumented walk, first line, every recorded value shown at its column, every evaluated variable attributed to the column where its name stands in the source (also with tabs, carriage returns and Unicode spaces between tokens). The report: render_shows / render_shows_lines / render_shows_last (every recorded value with column >= 1 that is the last of its column stands, whole, on one report line below the source and the | line, starting at its column; a multi-line value on consecutive lines), render_hidden (the other entries do not influence the report), render_first_line, render_no_break, render_lines_join, and recordOf_shown (composition with the distinct-columns theorem for real records). Not proved: that the cells between values hold only blanks and |. Over the engine object (Model/Engine.lean, tied by the engine stream, in which closure.DebugCompile is one of the four compilers): the same Callable under the debug compiler and under the closure compiler returns the same value, failure or environment error, with the same host calls and print lines (C19.engine_debug_same_result); a refused environment records nothing (engine_debug_reject_records_nothing).",
     "assumptions": [],
